@@ -275,6 +275,9 @@ def reference_pass(sv, ctx, workload, count_steps=True):
                     workload.setdefault('_after_return', {})[(len(ref), len(rr))] = c.after_return_steps
                 elif workload.get('mode') in ('msweep', 'msweep2') and not ref and not rr:
                     workload['_sites'] = sorted([k[0], k[1], len(v)] for k, v in c.sites.items())
+                elif workload.get('mode') == 'msweep2' and len(ref) == 1 and not rr:
+                    g = _guarded_sites()
+                    workload['_a_guarded'] = sorted({st for k, v in c.sites.items() if k in g for st in (v[0], v[-1])})
             else:
                 res = ops.safe_run(ctx, op)
                 ss.append(0)
@@ -286,6 +289,49 @@ def reference_pass(sv, ctx, workload, count_steps=True):
         env.canonical_state(sv)
         ref_keys.append(ops.safe_run(ctx, {'op': 'compile', 'key': k}))
     return ref, steps, ref_keys
+
+
+def _proc_state():
+    """Process-wide interpreter state that no library call may leave changed (the part of it a thread-unsafe
+    save/restore idiom such as warnings.catch_warnings() or a temporarily raised recursion limit would tear)."""
+
+    import warnings, gc, os, decimal, locale
+    return {
+        'warnings.filters': [repr(f) for f in warnings.filters],
+        'recursionlimit': sys.getrecursionlimit(),
+        'sys.path': list(sys.path),
+        'meta_path': [type(f).__name__ if not isinstance(f, type) else f.__name__ for f in sys.meta_path],
+        'gc': gc.isenabled(),
+        'cwd': os.getcwd(),
+        'environ': fp.h(sorted(os.environ.items())),
+        'decimal': repr(decimal.getcontext()),
+        'locale': locale.setlocale(locale.LC_ALL),
+        'excepthook': getattr(sys.excepthook, '__name__', repr(type(sys.excepthook))),
+        'showwarning': getattr(warnings.showwarning, '__module__', '?'),
+    }
+
+
+def _state_diff(a, b):
+    return {k: [_j(a[k]), _j(b[k])] for k in a if a[k] != b[k]}
+
+
+def _seq_state_child(sv, workload):
+    """Do the same calls, one after the other, change the process state?  (Then it is not the interleaving's doing
+    and C14 has nothing to say about it.)"""
+
+    ctx = ops.Ctx(sv, workload['keys'], workload['docs'])
+    for prog in workload['programs']:
+        for op in prog:
+            if op.get('form') == 'precompiled':
+                ctx.precompile(op['key'])
+    env.canonical_state(sv)
+    before = _proc_state()
+    for prog in workload['programs']:
+        for op in prog:
+            ops.safe_run(ctx, op)
+    for k in range(len(workload['keys'])):
+        ops.safe_run(ctx, {'op': 'compile', 'key': k})
+    return sorted(_state_diff(before, _proc_state()))
 
 
 def _reference_child(sv, workload, count_steps):
@@ -300,7 +346,7 @@ def _reference_child(sv, workload, count_steps):
             if workload.get('mode') == 'sweep':
                 out = tuple(out) + ({f'{a}:{b}': v for (a, b), v in workload.pop('_after_return', {}).items()},)
             elif workload.get('mode') in ('msweep', 'msweep2'):
-                out = tuple(out) + (workload.pop('_sites', []),)
+                out = tuple(out) + (workload.pop('_sites', []), workload.pop('_a_guarded', []))
             return out
     except env.SlowOperation:
         sys.settrace(None)
@@ -350,6 +396,7 @@ def execute(sv, workload, policy_spec, sched_seed=0, bound=None, docs=None, coun
     sim = sched.Sim(programs, policy, prefix=env.repo_pkg_dir(), op_kinds=kinds,
                     opcodes=bool(workload.get('opcodes')), max_steps=12_000_000,
                     record_sites=policy_spec.get('record_sites'))
+    state_before = _proc_state()
     try:
         sim.run()
     except sched.HarnessError as e:
@@ -401,6 +448,21 @@ def execute(sv, workload, policy_spec, sched_seed=0, bound=None, docs=None, coun
             cache_sizes = (ci.currsize, ci.maxsize)
             if ci.maxsize is None or ci.currsize > ci.maxsize:
                 violation = {'oracle': 'b-cache', 'detail': f'currsize={ci.currsize} maxsize={ci.maxsize}'}
+
+    if violation is None:
+        changed = _state_diff(state_before, _proc_state())
+        if changed:
+            try:
+                alone = runner.isolated(_seq_state_child, sv, workload, hang_s=20)
+            except runner.IsolatedTimeout:
+                alone = None
+            if alone is not None and not isinstance(alone, dict):
+                changed = {k: v for k, v in changed.items() if k not in alone}
+                if changed:
+                    violation = {'oracle': 'd-process-state',
+                                 'detail': 'process-wide interpreter state differs after the concurrent calls, and '
+                                           'the same calls made one after the other leave it alone',
+                                 'changed': changed}
 
     same_key = 0
     for a, b in _overlaps(sim):
@@ -695,22 +757,57 @@ MSWEEP2_KEYS = [
     {'pattern': 'div > p.a:lang(en)', 'ns': None, 'custom': None, 'flags': 0},                 # 4 plain
     {'pattern': 'ul li\n a[href\n=x', 'ns': None, 'custom': None, 'flags': 0},                 # 5 malformed, plain
     {'pattern': ':--undefined p', 'ns': dict(_NS), 'custom': dict(_SWEEP_CUSTOM), 'flags': 0},  # 6 fails late, both maps
+    {'pattern': 'p:contains(a)', 'ns': None, 'custom': None, 'flags': 0},                      # 7 deprecated spelling (warns)
+    {'pattern': 'div :contains("b c", d)', 'ns': None, 'custom': None, 'flags': 0},            # 8 deprecated spelling (warns)
+    {'pattern': 'a:contains(x):nth-child(2n of :dir(ltr)):lang(en)', 'ns': None, 'custom': None, 'flags': 0},  # 9 all special forms
 ]
 MSWEEP2_BATCH = 40
 MSWEEP2_FRACTIONS = (0.25, 0.6, 0.9)
+
+
+_GUARDED = None
+
+
+def _guarded_sites():
+    """(function, line) of every source line inside a `with` body or inside a try body that has a finally clause:
+    the save / restore (enter / exit) regions.  Two threads inside the same region that leave it in the order they
+    entered it are the schedule a thread-unsafe save/restore idiom needs."""
+
+    global _GUARDED
+    if _GUARDED is None:
+        import ast
+        import os
+        out = set()
+        d = env.repo_pkg_dir()
+        for fn in sorted(os.listdir(d)):
+            if not fn.endswith('.py'):
+                continue
+            try:
+                tree = ast.parse(open(os.path.join(d, fn), encoding='utf-8').read())
+            except (OSError, SyntaxError):
+                continue
+            for f in ast.walk(tree):
+                if isinstance(f, (ast.FunctionDef, ast.AsyncFunctionDef)):
+                    for n in ast.walk(f):
+                        if isinstance(n, (ast.With, ast.AsyncWith)) or (isinstance(n, ast.Try) and n.finalbody):
+                            lo, hi = n.body[0].lineno, (n.body[-1].end_lineno or n.body[-1].lineno)
+                            out.update((f.name, ln) for ln in range(lo, hi + 1))
+        _GUARDED = out
+    return _GUARDED
 
 
 def msweep2_pairs():
     c = lambda k: {'op': 'compile', 'key': k}  # noqa: E731
     sel = lambda k: {'op': 'select', 'key': k, 'doc': 0, 'target': -1, 'form': 'module', 'limit': 0}  # noqa: E731
     # (B = the thread swept over its sites, A = the thread parked mid-operation and completed inside B's gap)
-    return [(c(1), c(0)), (c(3), c(2)), (c(4), c(4)), (sel(4), sel(4)), (c(5), c(5)), (c(1), c(6)), (c(3), c(6)), (c(0), c(0))]
+    return [(c(1), c(0)), (c(3), c(2)), (c(4), c(4)), (sel(4), sel(4)), (c(5), c(5)), (c(1), c(6)), (c(3), c(6)), (c(0), c(0)),
+            (c(7), c(8)), (c(9), c(9))]
 
 
 def run_msweep2(sv, index, bound):
     from sim import runner
     pairs = msweep2_pairs()
-    combos = len(pairs) * len(MSWEEP2_FRACTIONS)
+    combos = len(pairs) * (len(MSWEEP2_FRACTIONS) + 1)
     ci, batch = index % combos, index // combos
     pi, fi = ci % len(pairs), ci // len(pairs)
     b_op, a_op = pairs[pi]
@@ -723,45 +820,69 @@ def run_msweep2(sv, index, bound):
     if isinstance(got, dict):
         return got
     a_len = got[1][1][0]
-    a_step = max(2, int(a_len * MSWEEP2_FRACTIONS[fi]))
-    # which code sites does B reach WHILE A is parked mid-operation?  (Paths that only exist then - the "somebody else
-    # is already at it" branches - are invisible when B runs alone.)
-    try:
-        r0 = runner.isolated(execute, sv, workload, {'name': 'k-preempt', 'points': [[1, a_step + 1, None]], 'first': 1,
-                                                     'record_sites': 0}, 0, bound, None, False, got[:3], hang_s=60)
-    except runner.IsolatedTimeout:
-        return {'discarded': 'reference-pass-killed-at-deadline(stuck-in-C-code)'}
-    if r0.get('discarded'):
-        return r0
-    if r0.get('violation'):
-        r0 = dict(r0)
-        r0['workload'] = workload
-        r0['bound'] = bound
-        return r0
-    sites = r0['site_visits']
-    allp = [[fn, ln, 1] for fn, ln, n in sites] + [[fn, ln, 2] for fn, ln, n in sites if n > 1]
-    points = allp[batch * MSWEEP2_BATCH:(batch + 1) * MSWEEP2_BATCH]
-    if not points:
-        return {'discarded': 'sweep-batch-beyond-end-of-operation'}
+    guarded_slot = fi >= len(MSWEEP2_FRACTIONS)
+    if guarded_slot:
+        # A is parked INSIDE a save/restore region (a `with` body, a try body with a finally clause) and B at the sites
+        # of such regions: both inside, and the one that entered first leaves first
+        if batch:
+            return {'discarded': 'sweep-batch-beyond-end-of-operation'}
+        a_steps = sorted({x for st in got[4] for x in (st, st + 1) if 2 <= x < a_len})[:16]
+        if not a_steps:
+            return {'discarded': 'sweep-batch-beyond-end-of-operation'}
+    else:
+        a_steps = [max(2, int(a_len * MSWEEP2_FRACTIONS[fi]))]
     res = None
     digests = []
     tot_steps = tot_sw = 0
-    for fn, ln, k in points:
-        # A starts, is parked at a_step (the other thread runs until it finishes or is itself parked), B is parked at
-        # its site (A then runs to completion), B resumes
-        spec = {'name': 'k-preempt', 'points': [[1, a_step + 1, None]], 'sites': [[0, fn, ln, k, None]], 'first': 1}
+    nsites = npoints = 0
+    for a_step in a_steps:
+        # which code sites does B reach WHILE A is parked mid-operation?  (Paths that only exist then - the "somebody
+        # else is already at it" branches - are invisible when B runs alone.)
         try:
-            r = runner.isolated(execute, sv, workload, spec, 0, bound, None, False, got[:3], hang_s=60)
+            r0 = runner.isolated(execute, sv, workload, {'name': 'k-preempt', 'points': [[1, a_step + 1, None]], 'first': 1,
+                                                         'record_sites': 0}, 0, bound, None, False, got[:3], hang_s=60)
         except runner.IsolatedTimeout:
-            continue
-        if r.get('discarded'):
-            continue
-        digests.append(r['digest'])
-        tot_steps += r['steps']
-        tot_sw += r['switches']
-        if res is None or (r['violation'] and not res['violation']):
-            res = r
-        if r['violation']:
+            if guarded_slot:
+                continue
+            return {'discarded': 'reference-pass-killed-at-deadline(stuck-in-C-code)'}
+        if r0.get('discarded'):
+            if guarded_slot:
+                continue
+            return r0
+        if r0.get('violation'):
+            r0 = dict(r0)
+            r0['workload'] = workload
+            r0['bound'] = bound
+            return r0
+        sites = r0['site_visits']
+        if guarded_slot:
+            g = _guarded_sites()
+            points = [[fn, ln, 1] for fn, ln, n in sites if (fn, ln) in g]
+            allp = points
+        else:
+            allp = [[fn, ln, 1] for fn, ln, n in sites] + [[fn, ln, 2] for fn, ln, n in sites if n > 1]
+            points = allp[batch * MSWEEP2_BATCH:(batch + 1) * MSWEEP2_BATCH]
+            if not points:
+                return {'discarded': 'sweep-batch-beyond-end-of-operation'}
+        nsites, npoints = len(sites), npoints + len(allp)
+        for fn, ln, k in points:
+            # A starts, is parked at a_step (the other thread runs until it finishes or is itself parked), B is parked
+            # at its site (A then runs to completion), B resumes
+            spec = {'name': 'k-preempt', 'points': [[1, a_step + 1, None]], 'sites': [[0, fn, ln, k, None]], 'first': 1}
+            try:
+                r = runner.isolated(execute, sv, workload, spec, 0, bound, None, False, got[:3], hang_s=60)
+            except runner.IsolatedTimeout:
+                continue
+            if r.get('discarded'):
+                continue
+            digests.append(r['digest'])
+            tot_steps += r['steps']
+            tot_sw += r['switches']
+            if res is None or (r['violation'] and not res['violation']):
+                res = r
+            if r['violation']:
+                break
+        if res is not None and res['violation']:
             break
     if res is None:
         return {'discarded': 'sweep-batch-beyond-end-of-operation'}
@@ -775,7 +896,8 @@ def run_msweep2(sv, index, bound):
     res['workload'] = workload
     res['bound'] = bound
     res['sweep'] = {'kind': 'depth-2-site-sweep', 'pair': pi, 'batch': batch, 'swept': b_op, 'parked_then_completed': a_op,
-                    'parked_at_step': a_step, 'of_steps': a_len, 'distinct_sites': len(sites), 'points_total': len(allp)}
+                    'parked_at_step': a_step, 'of_steps': a_len, 'distinct_sites': nsites, 'points_total': npoints,
+                    'slot': 'save-restore-regions' if guarded_slot else MSWEEP2_FRACTIONS[fi]}
     return res
 
 
@@ -852,7 +974,7 @@ def plan(tier):
                  'nruns': npairs * (9 if tier != 'thorough' else 17)})
     # the systematic sweeps are dispatched first in every round: a deadline cut then only shortens the random sampling
     # depth-2 site sweep (8 pairs x 3 parking points of the peer x the sites of the swept thread)
-    combos = len(msweep2_pairs()) * len(MSWEEP2_FRACTIONS)
+    combos = len(msweep2_pairs()) * (len(MSWEEP2_FRACTIONS) + 1)
     cfgs.append({'name': 'msweep2-k500', 'mode': 'msweep2', 'bound': 500, 'chunk': 6,
                  'nruns': combos * (9 if tier != 'thorough' else 22)})
     for c in cfgs:
